@@ -27,16 +27,19 @@ import (
 	openfgav1 "github.com/openfga/api/proto/openfga/v1"
 	"go.uber.org/zap"
 	"go.uber.org/zap/zaptest/observer"
+	"google.golang.org/grpc/status"
 
 	"github.com/openfga/openfga/internal/check"
 	"github.com/openfga/openfga/internal/condition"
 	"github.com/openfga/openfga/internal/modelgraph"
+	"github.com/openfga/openfga/internal/planner"
 	"github.com/openfga/openfga/internal/validation"
 	"github.com/openfga/openfga/pkg/logger"
 	"github.com/openfga/openfga/pkg/server"
 	"github.com/openfga/openfga/pkg/server/commands"
 	"github.com/openfga/openfga/pkg/server/commands/v2breaking"
 	"github.com/openfga/openfga/pkg/storage"
+	"github.com/openfga/openfga/pkg/storage/cache/keys"
 	"github.com/openfga/openfga/pkg/storage/memory"
 	"github.com/openfga/openfga/pkg/tuple"
 	"github.com/openfga/openfga/pkg/typesystem"
@@ -128,9 +131,12 @@ func gen(r *hx.Rand, n int, tier string, emit func(string), st *hx.Stats) {
 func v2class(res *commands.CheckResult, err error) string {
 	if err != nil {
 		var ee *condition.EvaluationError
+		var ite *tuple.InvalidTupleError
 		switch {
 		case errors.As(err, &ee):
 			return "Econd"
+		case errors.As(err, &ite):
+			return "Einvalidtuple"
 		case errors.Is(err, check.ErrWildcardInvalidRequest):
 			return "Eshape:wildcard"
 		case errors.Is(err, check.ErrUsersetInvalidRequest):
@@ -160,10 +166,43 @@ func v1class(out string) string {
 	return f[0]
 }
 
-func runV2(mg *modelgraph.AuthorizationModelGraph, ds storage.OpenFGADatastore, strategy string, breadth int, rq fga.Req, ctxT []fga.Tuple, pl *fgarun.ForcedPlanner) (string, error) {
-	if pl == nil {
-		pl = &fgarun.ForcedPlanner{Want: strategy}
+// forcedPlanner makes every plan selector return the strategy `want` when it is offered (else
+// "default") and records the offered strategies; safe for concurrent use (fgarun.ForcedPlanner's
+// Offered map is not).
+type forcedPlanner struct {
+	want    string
+	mu      sync.Mutex
+	offered map[string]bool
+}
+
+type forcedSel struct{ p *forcedPlanner }
+
+func (p *forcedPlanner) GetPlanSelector(_ keys.Key) planner.Selector { return forcedSel{p} }
+func (p *forcedPlanner) Stop()                                       {}
+
+func (s forcedSel) Select(plans map[string]*planner.PlanConfig) *planner.PlanConfig {
+	s.p.mu.Lock()
+	for k := range plans {
+		s.p.offered[k] = true
 	}
+	s.p.mu.Unlock()
+	if pc, ok := plans[s.p.want]; ok {
+		return pc
+	}
+	return plans["default"]
+}
+
+func (s forcedSel) UpdateStats(_ *planner.PlanConfig, _ time.Duration) {}
+
+func runV2(mg *modelgraph.AuthorizationModelGraph, ds storage.OpenFGADatastore, strategy string, breadth int, rq fga.Req, ctxT []fga.Tuple, offered map[string]bool) (string, error) {
+	pl := &forcedPlanner{want: strategy, offered: map[string]bool{}}
+	defer func() {
+		pl.mu.Lock()
+		for k := range pl.offered {
+			offered[k] = true
+		}
+		pl.mu.Unlock()
+	}()
 	q := commands.NewCheckQuery(
 		commands.WithCheckQueryV2Datastore(ds),
 		commands.WithCheckQueryV2Model(mg),
@@ -249,17 +288,21 @@ func serverCheck(pm *openfgav1.AuthorizationModel, tuples, ctxT []fga.Tuple, rq 
 	sort.Strings(reasons)
 	cls := "F"
 	if err != nil {
-		cls = "E"
-		msg := err.Error()
-		switch {
-		case strings.Contains(msg, "failed to evaluate relationship condition"), strings.Contains(msg, "condition"):
-			cls = "Econd"
-		case strings.Contains(msg, "depth"):
-			cls = "Edepth"
-		case strings.Contains(msg, "validation_error"), strings.Contains(msg, "InvalidArgument"), strings.Contains(msg, "invalid"):
-			cls = "Einvalid"
-		default:
-			cls = "Eother"
+		cls = "Eother"
+		if st, ok := status.FromError(err); ok {
+			code := openfgav1.ErrorCode(st.Code())
+			switch {
+			case code == openfgav1.ErrorCode_invalid_tuple:
+				cls = "Einvalidtuple"
+			case code == openfgav1.ErrorCode_validation_error && strings.Contains(st.Message(), "condition"):
+				cls = "Econd"
+			case code == openfgav1.ErrorCode_validation_error:
+				cls = "Evalidation"
+			case code == openfgav1.ErrorCode_authorization_model_resolution_too_complex:
+				cls = "Edepth"
+			default:
+				cls = "E" + strings.ReplaceAll(code.String(), " ", "_")
+			}
 		}
 	} else if resp.GetAllowed() {
 		cls = "T"
@@ -324,7 +367,7 @@ func exec(line string, st *hx.Stats) string {
 		out = append(out, "mg ok")
 		offered := map[string]bool{}
 		var d1 string
-		d1, d1err = runV2(mg, ds, "default", 1, rq, ctxT, &fgarun.ForcedPlanner{Want: "default", Offered: offered})
+		d1, d1err = runV2(mg, ds, "default", 1, rq, ctxT, offered)
 		graphDump = dumpGraph(mg, userType)
 		if os.Getenv("C03_PROBE_GRAPH") != "" {
 			for i := 0; i < 6; i++ {
@@ -341,7 +384,7 @@ func exec(line string, st *hx.Stats) string {
 		many := func(strategy string, breadth, reps int) string {
 			seen := map[string]bool{}
 			for i := 0; i < reps; i++ {
-				c, _ := runV2(mg, ds, strategy, breadth, rq, ctxT, &fgarun.ForcedPlanner{Want: strategy, Offered: offered})
+				c, _ := runV2(mg, ds, strategy, breadth, rq, ctxT, offered)
 				seen[c] = true
 			}
 			var cs []string
